@@ -634,6 +634,29 @@ def r15_default_test_and_rename_table(idx, r):
         r.require(len(targets) == 1, f"oldName:{old}:one-target", (hits[0][1].relpath, hits[0][2].lineno, ""), msg=f"the old name `{old}` is claimed by {sorted(map(str, targets))}")
 
 
+def r17_null_is_a_value_and_strictly_increasing(idx, r):
+    """(a) the reader applies every entry of the file to its setting, a YAML null included: the writer emits `null` for a setting whose value
+    is None, so a reader that skips nulls reads the default back instead.  The assignment in SettingsReader._applySettings depends on the
+    NAME being known, never on the value.  (b) `cumulative days` must increase strictly: the validator asks isMonotonic for "<".  With "<="
+    two equal neighbours pass - a step of length zero - although the schema is there to refuse them."""
+    f = idx.method("armi.settings.settingsIO.SettingsReader", "_applySettings")
+    val = f.params()[2]
+    sts = [s_ for s_ in iter_stores(f.node) if s_.kind == "subscript" and norm(s_.node.value) == "self.cs"] + [c for c in iter_calls(f.node) if call_attr(c) == "setValue"]
+    if len(sts) != 1:
+        raise AnchorMissing("_applySettings: self.cs[name] = val")
+    node = getattr(sts[0], "stmt", sts[0])
+    conds = [norm(t) for t, _p in path_conditions(f.node, node) if val in {y.id for y in ast.walk(t) if isinstance(y, ast.Name)}]
+    r.require(not conds, "_applySettings:every-value-applied", f, node=node,
+              msg=f"the value read is only applied under {conds}: a `null` entry - what the writer emits for None - is dropped and the setting reads back as its default")
+    g = idx.func("armi.settings.fwSettings.globalSettings._isMonotonicIncreasing")
+    calls = [c for c in iter_calls(g.node) if call_attr(c) == "isMonotonic" or dotted(c.func) == "isMonotonic"]
+    if len(calls) != 1 or len(calls[0].args) < 2:
+        raise AnchorMissing("_isMonotonicIncreasing: isMonotonic(list, relation)")
+    rel = calls[0].args[1]
+    r.require(isinstance(rel, ast.Constant) and rel.value == "<", "cumulative-days:strictly-increasing", g, node=calls[0],
+              msg=f"the relation is `{norm(rel)}`: equal neighbouring values (a burn step of zero length) are accepted on assignment and on reading")
+
+
 def r16_pairing(idx, r):
     from ..pairing import pairing_rule
     pairing_rule(idx, r, ["armi.settings"], 80)
@@ -674,3 +697,5 @@ def run(idx, chk):
                  necessary="every off-default value is written by every style; an input under an old name sets the setting it always set")
     chk.run_rule("R17.16", "arguments stand at the parameter they are named after; sibling calls forward the same pass-through parameters", lambda r: r16_pairing(idx, r), floor=1,
                  necessary="style, path and settings object reach the writer in that order")
+    chk.run_rule("R17.17", "the reader applies every value, null included; cumulative days increase strictly", lambda r: r17_null_is_a_value_and_strictly_increasing(idx, r), floor=2,
+                 necessary="a written None reads back as None; an invalid history is refused on assignment and on reading alike")
